@@ -47,6 +47,7 @@ CONSTANTS WithArg,      \* TRUE: generator<int,int>, FALSE: generator<int>
           MaxAfterEnd,  \* bound on accesses made after the first end/exception indication
           EarlyDestroy, \* TRUE: the generator may be destroyed at every parked point
           Threaded,     \* see above
+          MaxObj,       \* bound on object-level operations (ObjOp) on the generator OBJECT
           PostIncMoves  \* FALSE: generator_iterator::operator++(int) copies the current item (the code since 97856c3);
                         \* TRUE: it moves it out of the yielded object (the code before: known finding
                         \* iterator_postincrement_moves_item) -- PayloadIntact is then violated
@@ -70,7 +71,9 @@ VARIABLES pr,        \* the promise's hand-over record
           pc,        \* code site to run next, "idle" = no library code on any stack
           pay        \* payload: the yielded objects.  var/moved: content and moved-from flag of the body's own named
                      \* variable; rvar: _ret points at that variable (else at a temporary / a dying local);
-                     \* cp, mv: copy / move constructions of the value type made so far; ylog: contents yielded
+                     \* cp, mv: copy / move constructions of the value type made so far; ylog: contents yielded;
+                     \* on: object-level operations made; octor, odtor: constructions / destructions of the RAII local
+                     \* of the OTHER generators those operations replaced
 
 vars == <<pr, bst, pendk, nawait, bscript, cscript, obs, got, finAt, loc, par, it, alive, pc, pay>>
 
@@ -109,7 +112,8 @@ Init ==
     /\ bscript = <<>> /\ cscript = <<>> /\ obs = <<>> /\ got = <<>> /\ finAt = 0
     /\ loc = [ctor |-> 0, dtor |-> 0] /\ par = 1
     /\ it = "none" /\ alive = TRUE /\ pc = "idle"
-    /\ pay = [var |-> 0, moved |-> FALSE, rvar |-> FALSE, cp |-> 0, mv |-> 0, ylog |-> <<>>]
+    /\ pay = [var |-> 0, moved |-> FALSE, rvar |-> FALSE, cp |-> 0, mv |-> 0, ylog |-> <<>>,
+              on |-> 0, octor |-> 0, odtor |-> 0]
 
 -----------------------------------------------------------------------------
 (* consumer side *)
@@ -338,7 +342,29 @@ Destroy ==
     /\ par' = 0
     /\ UNCHANGED <<pr, pendk, nawait, bscript, cscript, obs, got, finAt, it, pc, pay>>
 
+(* operations on the generator OBJECT (generator.h:472-480: the object owns the coroutine through a unique_ptr with a
+   destroying deleter; move construction / assignment are the defaulted ones), made between accesses while the body is
+   parked.  The coroutine frame with its locals follows the object; consumption continues through the new object;
+   iterators obtained from the old object are gone.
+     "movector"      G b(std::move(a)); the moved-from a is destroyed (empty: nothing happens)
+     "assign_X"      a target t -- default constructed ("empty"), never started ("fresh"), parked at a co_yield ("yield"),
+                     finished ("final") -- is move ASSIGNED from the generator: t = std::move(a).  The coroutine t owned
+                     before is destroyed exactly once, at the assignment: its locals die once if it was started and still
+                     parked, are already dead if it had finished, never existed if it was fresh; its parameters die with it
+     "swap_X"        std::swap(a, t); the object now holding t's former coroutine is destroyed: same bookkeeping
+   octor/odtor count the RAII local of those other coroutines; their by-value parameters are all dead after the operation
+   (replayer). *)
+ObjKinds == {"movector", "assign_empty", "assign_fresh", "assign_yield", "assign_final", "swap_fresh", "swap_yield", "swap_final"}
+ObjOp(kind) ==
+    /\ pc = "idle" /\ alive /\ pr.caller = "null" /\ bst \in {"init", "yield", "final"}
+    /\ pay.on < MaxObj /\ kind \in ObjKinds
+    /\ LET started == IF kind \in {"assign_yield", "assign_final", "swap_yield", "swap_final"} THEN 1 ELSE 0
+       IN pay' = [pay EXCEPT !.on = @ + 1, !.octor = @ + started, !.odtor = @ + started]
+    /\ it' = "none"
+    /\ UNCHANGED <<pr, bst, pendk, nawait, bscript, cscript, obs, got, finAt, loc, par, alive, pc>>
+
 Next ==
+    \/ \E k \in ObjKinds : ObjOp(k)
     \/ \E s \in SyncStyles : NextSync(s)
     \/ NextAsync \/ NextFuture
     \/ BodyResume
